@@ -66,8 +66,16 @@ pub fn judge_written(ans: &Answer, plan: &WriterPlan, truth: &[u8]) -> Option<St
       io,
     } => {
       let (exp_ok, exp_bytes) = written_expected(plan, truth);
-      if io.calls_after_error > 0 {
-        return Some(format!("{} write call(s) after the hard error", io.calls_after_error));
+      // A call after the error is only observable when the failure was
+      // transient: then its bytes are in the sink. "Having written only a
+      // prefix of buffer()" is judged on the sink's content.
+      if io.bytes_after_error > 0 && !truth.starts_with(accepted) {
+        return Some(format!(
+          "after the writer failed once at byte {:?}, to_writer kept writing: the sink holds {:?}, which is not a prefix of {:?}",
+          plan.fail_at,
+          String::from_utf8_lossy(accepted),
+          String::from_utf8_lossy(truth)
+        ));
       }
       if *ok != exp_ok {
         return Some(format!(
@@ -79,7 +87,7 @@ pub fn judge_written(ans: &Answer, plan: &WriterPlan, truth: &[u8]) -> Option<St
           if exp_ok { "Ok" } else { "Err" }
         ));
       }
-      if *accepted != exp_bytes {
+      if *accepted != exp_bytes && !(io.bytes_after_error > 0 && truth.starts_with(accepted)) {
         return Some(format!(
           "writer accepted {:?}, expected {:?}",
           String::from_utf8_lossy(accepted),
@@ -213,6 +221,14 @@ pub fn check_case(case: &C07Case) -> (Vec<Violation>, Counters, bool, Option<Wri
           eintr_burst: case.eintr_burst.max(1),
           ..Default::default()
         });
+        // transient failure at k (one failing call, then the sink recovers)
+        plans.push(WriterPlan {
+          fail_at: Some(k),
+          fail_kind: fail_kind.clone(),
+          max_chunk: if k % 2 == 0 { 0 } else { case.max_chunk.max(1) },
+          transient: true,
+          ..Default::default()
+        });
         // Ok(0) at k
         plans.push(WriterPlan {
           zero_at: Some(k),
@@ -239,6 +255,10 @@ pub fn check_case(case: &C07Case) -> (Vec<Violation>, Counters, bool, Option<Wri
       counters.add("fault:eintr_fired", io.eintr);
       counters.add("fault:hard_write_error_fired", io.hard_errors);
       counters.add("fault:write_zero_fired", io.zero_returns);
+      if plan.transient {
+        counters.add("fault:transient_write_error_fired", io.hard_errors);
+      }
+      counters.add("probe:write_calls_after_error", io.calls_after_error);
     }
     if let Some(d) = judge_written(&a, plan, &bytes) {
       violations.push(Violation {
@@ -363,7 +383,7 @@ impl Property for C07 {
     (serde_json::to_value(&cur).unwrap(), from)
   }
   fn rule(&self) -> String {
-    "case = one source tree over all eight source types (both binary leaf types with invalid UTF-8, ConcatSource built by new / add-later / nested typed, ReplaceSource, CachedSource, user-defined and re-boxed children) drawn from splitmix(VERIF_SEED, run index). Per tree: the four views are compared with a structural content model, then to_writer is executed once per failure offset k in 0..=len+1 in four modes (whole-buffer, short writes, short writes + EINTR bursts, Ok(0) at k) plus fragmentation-only and seeded mixed plans; exhaustive in k per tree, trees sampled. distinct_nontrivial = distinct composite trees with non-empty content.".into()
+    "case = one source tree over all eight source types (both binary leaf types with invalid UTF-8, ConcatSource built by new / add-later / nested typed, ReplaceSource, CachedSource, user-defined and re-boxed children) drawn from splitmix(VERIF_SEED, run index). Per tree: the four views are compared with a structural content model, then to_writer is executed once per failure offset k in 0..=len+1 in five modes (whole-buffer, short writes, short writes + EINTR bursts, a transient failure after which the sink accepts again, Ok(0) at k) plus fragmentation-only and seeded mixed plans; exhaustive in k per tree, trees sampled. distinct_nontrivial = distinct composite trees with non-empty content.".into()
   }
   fn assumptions(&self) -> Vec<String> {
     vec![
